@@ -347,7 +347,12 @@ def apply_malformations(case, raw, ops_info):
         elif kind == 'alter_source':
             asb['source'] = [1, '//evil/']
         elif kind == 'wrong_result_type':
-            asb['results'][tix][0][0] = {17: 97, 16: 96}.get(asb['results'][tix][0][0], 18)
+            # another COSE message kind (16 Encrypt0, 17 Mac0, 18 Sign1, 96 Encrypt, 97 Mac, 98 Sign) than the one the result is
+            code = asb['results'][tix][0][0]
+            want = mal.get('to', {16: 96, 17: 97, 18: 98}.get(code, 17))
+            if want == code:
+                want = {16: 96, 17: 97, 18: 98}.get(code, 17)
+            asb['results'][tix][0][0] = want
         elif kind == 'bad_cose':
             how = mal.get('how', 'garbage')
             val = asb['results'][tix][0][1]
@@ -753,8 +758,8 @@ def invisible_only(case, built):
     enc_bib = any(mal['kind'] == 'encrypted_bib' for mal in case.get('mal', ()))
     some = False
     for (info, item) in zip(built['ops'], op_faults(case, built)):
-        if not item:
-            continue
+        if not (item - set(['attached_payload'])):
+            continue        # verifies (an attached payload alone does not make an operation unverifiable, see lenient())
         some = True
         hidden = 'bad_asb' in item or (enc_bib and info['sec'] == 'bib' and info['num'] in built['encrypted'])
         if not hidden:
@@ -941,6 +946,12 @@ def cert_cases():
                 out.append(('cert:good+attach', mk_case(CERT_OPS_MENU[0], [att], accept=accept, pki=dict(variant='good', x5=x5))))
                 out.append(('cert:good+attach', mk_case(CERT_OPS_MENU[0], [dict(kind='alter_target', blk=0, pos=2), att], accept=accept,
                                                         pki=dict(variant='good', x5=x5))))
+        for to in (16, 17, 96, 97, 98, 19, 0):
+            for x5 in ('x5chain', 'x5t'):
+                out.append(('cert:good+wrong_result_type', mk_case(CERT_OPS_MENU[0], [dict(kind='wrong_result_type', blk=0, to=to)], accept=accept,
+                                                                   pki=dict(variant='good', x5=x5))))
+        out.append(('cert:good+wrong_result_type', mk_case(CERT_OPS_MENU[2], [dict(kind='wrong_result_type', blk=1)], accept=accept,
+                                                           pki=dict(variant='good', x5='x5chain'))))
     return out
 
 
@@ -974,6 +985,15 @@ def directed_cases():
                     out.append(('attach', mk_case(ops, [dict(kind='alter_target', blk=blk, tix=tix, pos=pos), att], accept=accept)))   # target altered
             out.append(('attach', mk_case(ops, [dict(kind='alter_flags', blk=blk, tix=tix),
                                                 dict(kind='attach_payload', blk=blk, tix=tix, what='original')], accept=accept)))
+        # a result carrying another COSE message kind than it is (incl. ids no COSE message has)
+        for to in (16, 17, 18, 96, 97, 98, 19, 0):
+            out.append(('wrong_result_type', mk_case(one_bib, [dict(kind='wrong_result_type', blk=0, to=to)], accept=accept)))
+            out.append(('wrong_result_type', mk_case(one_bcb, [dict(kind='wrong_result_type', blk=0, to=to)], accept=accept)))
+        # an attached payload on a verifying block next to a block whose BTSD does not dissect (known finding, not a new class)
+        out.append(('attach+bad_asb', mk_case(two, [dict(kind='bad_asb', blk=1, how='garbage'),
+                                                    dict(kind='attach_payload', blk=0, what='current')], accept=accept)))
+        out.append(('attach+bad_asb', mk_case(OPS_MENU[12], [dict(kind='bad_asb', blk=1, how='text'),
+                                                             dict(kind='attach_payload', blk=2, what='original')], accept=accept)))
         # key store contents
         for how in ('wrong', 'missing'):
             out.append((how + '_key', mk_case(one_bib, [dict(kind=how + '_key', blk=0)], keystore=dict(A=how), accept=accept)))
@@ -1026,6 +1046,8 @@ def random_case(rng):
             ent = dict(kind=kind, blk=rng.randrange(len(ops)), tix=rng.randrange(2), pos=rng.randrange(64))
             if kind in HOWS:
                 ent['how'] = rng.choice(HOWS[kind])
+            if kind == 'wrong_result_type':
+                ent['to'] = rng.choice([16, 17, 18, 96, 97, 98, 19, 0])
             if kind == 'attach_payload':
                 ent['what'] = rng.choice(['original', 'original', 'current', 'other'])
                 if rng.random() < 0.6:
@@ -1110,9 +1132,9 @@ def replay(chk, path):
     built = build(case)
     if rep.get('raw_hex') and rep['raw_hex'] != built['raw'].hex():
         if case.get('pki'):
-            built['raw'] = bytes.fromhex(rep['raw_hex'])    # ECDSA signatures are randomised: replay the recorded octets
+            print('note: rebuilt from the case (ECDSA signatures are randomised, the octets differ from the recorded ones)')
         else:
-            print('note: the rebuilt bundle differs from the recorded octets (send path changed?)')
+            print('note: the rebuilt bundle differs from the recorded octets (send path or generator changed?)')
     (built, obs) = run_impl(case, built)
     print('case     :', json.dumps(case, sort_keys=True))
     print('bundle   :', built['raw'].hex())
